@@ -37,6 +37,8 @@ LITERAL = {
 
 def sentinel_for(param: str, tok: Tuple[str, object], decl: bool, host_cls: Optional[str], sig_index: int = 0, zero=None):
     """(source text of the argument, predicate text describing it) for the argument bound by `tok` = ('P', i) / ('K', name)"""
+    if zero is not None and "__none__" in zero and param in zero:
+        return "None", ("none", None)
     if param in LITERAL:
         return LITERAL[param][0], ("lit", LITERAL[param][1])
     if zero is not None and param in zero:
@@ -160,6 +162,8 @@ def matches(value, d) -> bool:
         if isinstance(value, (int, float)):
             return value == 0
         return isinstance(value, str) and re.fullmatch(r"\(?\s*[-+]?0+(\.0*)?[fF]?\s*\)?", value.strip()) is not None
+    if kind == "none":
+        return value is None
     if kind == "lit":
         if v is None:
             return True        # value-level parameter: what reaches the field is decided elsewhere
